@@ -23,10 +23,12 @@ func pseudoRootURL() string {
 // elemCase: one or two calls on elements of a root, with a cache policy.
 type elemCase struct {
 	expCase
-	Calls     []call   `json:"calls"`
-	Preload   []string `json:"preload,omitempty"`    // documents put into the supplied cache before the first call
-	AltRoot   bool     `json:"alt_root,omitempty"`   // the first call uses a *different* root (same locations, other content) with the same cache
-	CacheKind string   `json:"cache_kind,omitempty"` // "" none | "mem" harness-implemented | "lib" the library's own
+	Calls        []call   `json:"calls"`
+	Preload      []string `json:"preload,omitempty"`      // documents put into the supplied cache before the first call
+	AltRoot      bool     `json:"alt_root,omitempty"`     // the first call uses a *different* root (same locations, other content) with the same cache
+	CacheKind    string   `json:"cache_kind,omitempty"`   // "" none | "mem" harness-implemented | "lib" the library's own
+	ExpectErr    bool     `json:"expect_err,omitempty"`   // every call has to follow an unresolvable reference: each must report an error
+	Differential bool     `json:"differential,omitempty"` // compare with the same call made without a cache (no reference model: ids)
 }
 
 // rootedBase: the location against which the refs of the element (and of the result) are read.
@@ -110,6 +112,26 @@ func elemCheck(c *Ctx, cs *elemCase, which string) string {
 			eu[base] = eu[ecs.Root]
 		}
 		f := eu.facts(ecs.Root, false)
+		if cs.ExpectErr {
+			f2 := ecs.effectiveUniverse().facts(ecs.Root, false)
+			r := doCall(&ecs, cl, cache, stepBudget(f2))
+			if r.Panic != "" || r.Budget {
+				report("crash-or-runaway", cl.Elem, r.Panic, cl)
+			} else if r.Err == "" {
+				report("silent-failure-with-reused-cache", cl.Elem, fmt.Sprintf("call %d returned no error although a document it needs is refused by the loader", i+1), cl)
+			}
+			continue
+		}
+		if cs.Differential {
+			base := doCall(&ecs, cl, nil, 200000)
+			r := doCall(&ecs, cl, cache, 200000)
+			if r.Panic != "" || r.Budget || base.Panic != "" || base.Budget {
+				report("crash-or-runaway", cl.Elem, r.Panic+base.Panic, cl)
+			} else if (r.Err == "") != (base.Err == "") || !jsonEqual(base.Out, r.Out) {
+				report("result-depends-on-cache", cl.Elem, fmt.Sprintf("without cache: err=%q %s | with cache: err=%q %s", base.Err, compact(base.Out), r.Err, compact(r.Out)), cl)
+			}
+			continue
+		}
 		if len(f.Broken) > 0 || f.IllFounded {
 			return "ill-formed-input"
 		}
@@ -287,6 +309,7 @@ func elemGraphs(c *Ctx, thorough bool, emit func(g *gspec)) {
 					g := baseSpec(nn, mask)
 					copy(g.Place, pp[:nn])
 					g.Entry = entAll
+					g.LocalRefs = true
 					if g.Place[0] != 0 {
 						g.EntrySpell = spAbsolute
 					}
@@ -304,6 +327,54 @@ func elemGraphs(c *Ctx, thorough bool, emit func(g *gspec)) {
 			}
 		}
 	}
+}
+
+// dependsOnAny: does the element reach one of the given documents?
+func dependsOnAny(u Universe, v vertex, docs []string) bool {
+	seen := map[string]bool{}
+	stack := []vertex{v}
+	for len(stack) > 0 {
+		x := stack[len(stack)-1]
+		stack = stack[:len(stack)-1]
+		if seen[x.key()] {
+			continue
+		}
+		seen[x.key()] = true
+		for _, d := range docs {
+			if x.loc.URL == d {
+				return true
+			}
+		}
+		stack = append(stack, u.succ(x)...)
+	}
+	return false
+}
+
+// idScenarios: documents in which a schema with an id re-scopes the fragment-only references below it.
+func idScenarios() []*built {
+	var out []*built
+	for _, id := range []string{"http://h/ids/n.json", "ids/n.json", "n.json"} {
+		for _, where := range []string{"ext", "root"} {
+			inner := obj("id", id, "title", "scoped",
+				"definitions", obj("X", obj("title", "inner-X")),
+				"properties", obj("p", obj("$ref", "#/definitions/X"), "q", obj("$ref", "#/definitions/Y")))
+			ext := obj("definitions", obj("S", inner, "X", obj("title", "outer-X-of-ext"), "Y", obj("title", "outer-Y-of-ext")))
+			root := obj("swagger", "2.0", "info", obj("title", "t", "version", "1"), "paths", obj(),
+				"definitions", obj("A", obj("title", "A", "properties", obj("s", obj("$ref", "ext.json#/definitions/S"))),
+					"B", obj("title", "B", "allOf", arr(obj("$ref", "ext.json#/definitions/X"), obj("$ref", "ext.json#/definitions/S"))),
+					"X", obj("title", "X-of-root"), "Y", obj("title", "Y-of-root")))
+			if where == "root" {
+				root["definitions"].(map[string]interface{})["A"] = obj("title", "A", "properties", obj("s", inner))
+			}
+			b := &built{Docs: map[string]json.RawMessage{}, Root: docURLs[0], Feat: map[string]string{"family": "ids", "ids": id, "where": where}}
+			rb, _ := json.Marshal(root)
+			eb, _ := json.Marshal(ext)
+			b.Docs[docURLs[0]] = rb
+			b.Docs["file:///r/s/ext.json"] = eb
+			out = append(out, b)
+		}
+	}
+	return out
 }
 
 func singleDoc(g *gspec) bool {
@@ -456,7 +527,51 @@ func c18Run(c *Ctx) {
 		}
 		// ExpandSpec itself: at most one request per document
 		run(&elemCase{expCase: expCase{built: *b, Spec: g}, Calls: []call{{Fn: "ExpandSpec"}}})
+		// the same document reached through a clean and through an unclean absolute URL
+		if len(ext) > 0 {
+			g2 := g.clone()
+			for k := range g2.Edges {
+				if g2.Place[g2.Edges[k].From] == 0 && g2.Place[g2.Edges[k].To] != 0 {
+					g2.Edges[k].Spell = spAbsDetour
+				}
+			}
+			b2 := g2.build()
+			run(&elemCase{expCase: expCase{built: *b2, Spec: g2}, Calls: []call{{Fn: "ExpandSpec"}}})
+			for _, e := range schemas {
+				run(&elemCase{expCase: expCase{built: *b2, Spec: g2}, Calls: []call{{Fn: "ExpandSchemaWithBasePath", Elem: e}}, CacheKind: "mem", Preload: ext})
+				run(&elemCase{expCase: expCase{built: *b2, Spec: g2}, Calls: []call{{Fn: "ExpandSchemaWithBasePath", Elem: e}}})
+			}
+			g3 := g.clone()
+			g3.EntrySpell = spAbsDetour
+			b3 := g3.build()
+			run(&elemCase{expCase: expCase{built: *b3, Spec: g3}, Calls: []call{{Fn: "ExpandSpec"}}})
+			// a refused document and a reused cache: the failure must be reported every time
+			for _, kind := range []string{"mem", "lib"} {
+				for _, e := range schemas {
+					cl := call{Fn: "ExpandSchemaWithBasePath", Elem: e}
+					ec := &elemCase{expCase: expCase{built: *b, Spec: g, FailLoads: ext}, Calls: []call{cl, cl, cl}, CacheKind: kind, ExpectErr: true}
+					if dependsOnAny(ec.universe(), vertex{Loc{b.Root, e}, KSchema}, ext) {
+						run(ec)
+					}
+				}
+			}
+		}
 	})
+	// ids: no reference model, the no-cache call is the oracle (differential)
+	for _, sc := range idScenarios() {
+		if !c.Mine() {
+			continue
+		}
+		for _, kind := range []string{"mem", "lib"} {
+			for _, pre := range [][]string{nil, {"file:///r/s/ext.json"}} {
+				for _, e := range []string{"/definitions/A", "/definitions/B"} {
+					cl := call{Fn: "ExpandSchemaWithBasePath", Elem: e}
+					run(&elemCase{expCase: expCase{built: *sc}, Calls: []call{cl}, CacheKind: kind, Preload: pre, Differential: true})
+					run(&elemCase{expCase: expCase{built: *sc}, Calls: []call{cl, cl}, CacheKind: kind, Preload: pre, Differential: true})
+				}
+			}
+		}
+	}
 }
 
 func init() {
